@@ -51,8 +51,9 @@ type request struct {
 	body    []byte
 	label   string
 	verdict int
-	what    string // for vBad / vCaller: the coarse reason (goes into signatures)
-	noCall  bool   // healthy and answered without any backend call
+	what    string   // for vBad / vCaller: the coarse reason (goes into signatures)
+	noCall  bool     // healthy and answered without any backend call
+	alt     *request // sign-prefixed number(s): the same request with the unsigned number(s), judged by the model (see run)
 
 	sub     *sub  // submissions
 	a, b    int64 // first,second | leaf index of the hash,tree_size | start,end | leaf_index,tree_size
@@ -254,6 +255,14 @@ func hashParam(p pval) ([]byte, bool) {
 	return b, true
 }
 
+// unsign drops the sign of a sign-prefixed number.
+func unsign(p pval) pval {
+	if p.class != "sign-prefixed" {
+		return p
+	}
+	return pval{class: "valid", s: p.s[1:]}
+}
+
 // reqParams builds the GET request for raw parameter values and lets the model judge it.
 func (w *world) reqParams(ep int, p0, p1 pval) *request {
 	names := epParams[ep]
@@ -264,6 +273,13 @@ func (w *world) reqParams(ep int, p0, p1 pval) *request {
 		}
 	}
 	r := &request{ep: ep, method: "GET", query: strings.Join(parts, "&")}
+	if p0.class == "sign-prefixed" || p1.class == "sign-prefixed" {
+		// Whether "+1" / "+0" / "-0" is a malformed decimal number is an interpretation: the request may be
+		// refused (4xx, no backend call) or treated exactly like the same request with the unsigned number.
+		r.alt = w.reqParams(ep, unsign(p0), unsign(p1))
+		r.verdict = vFree
+		return r
+	}
 	bad := func(i int, p pval) {
 		r.verdict = vBad
 		r.what = "parameter:" + p.class
